@@ -769,8 +769,8 @@ def terms_are_like(
     if len(one.variables) != len(two.variables):
         return False
 
-    invalid = len([False for v in one.variables if v not in two.variables]) > 0
-    if invalid:
+    # the same variables with the same multiplicities (x * x is not like x * y)
+    if sorted(one.variables) != sorted(two.variables):
         return False
 
     # Also, the exponents must match
